@@ -2459,7 +2459,7 @@ class sptensor:
         newshape = []
         for n, dim in enumerate(self.shape):
             smax = max(newsubs[:, n] + 1)
-            newshape.append(max(dim, smax))
+            newshape.append(int(max(dim, smax)))
         self.shape = tuple(newshape)
 
     def _set_subtensor(self, key, value):  # noqa: PLR0912, PLR0915
@@ -2481,7 +2481,7 @@ class sptensor:
                     else:
                         newsz.append(max([self.shape[n], key_n.stop]))
                     m = m + 1
-                elif isinstance(key_n, (float, int)):
+                elif isinstance(key_n, (float, int, np.integer)):
                     if self.ndims <= n:
                         newsz.append(key_n + 1)
                     else:
